@@ -172,3 +172,57 @@ def history_part(ctx, prefixes, files, nsteps, seeds):
     ctx.add_part('long histories (Trace_History)', files=files, seeds=len(seeds), steps=steps_total,
                  episodes=sum(s[1] for s in stats), actuations_that_changed_something=sum(s[2] for s in stats), violations=n_viol)
     return n_viol
+
+
+def apalache_lemmas(ctx, lemmas, modules=('MC_GVSym_5x5',), timeout=900, link=True):
+    """discharge step lemmas of GVSym for EVERY content of a grid of fixed shape with Apalache
+    (IndInv /\\ Next => lemma', --length=1 from --init=Init where Init == IndInv), and tie GVSym to the
+    main specification with TLC (MC_SymLink).  A time-out is reported in the evidence, never as a violation."""
+    import shutil
+    import subprocess
+    import tempfile
+    import concurrent.futures as cf
+    from harness.tlc import SPEC, run_tlc, write_cfg
+
+    def one(module, lemma):
+        out = tempfile.mkdtemp(prefix='apa_')
+        try:
+            p = subprocess.run(['apalache-mc', 'check', '--init=Init', f'--inv={lemma}', '--length=1', f'--out-dir={out}', f'{module}.tla'],
+                               cwd=SPEC, capture_output=True, text=True, timeout=timeout)
+            txt = p.stdout + p.stderr
+            if 'The outcome is: NoError' in txt:
+                return 'proved'
+            if 'The outcome is: Error' in txt or 'Checker has found an error' in txt:
+                return 'refuted' if 'outcome is: Error' in txt else 'tool-error: ' + txt[-400:]
+            return 'unknown: ' + txt[-300:]
+        except subprocess.TimeoutExpired:
+            return 'timeout'
+        finally:
+            shutil.rmtree(out, ignore_errors=True)
+            shutil.rmtree(os.path.join(SPEC, '_apalache-out'), ignore_errors=True)
+
+    jobs = [(m, l) for m in modules for l in list(lemmas) + ['FalseLemma']]
+    with cf.ThreadPoolExecutor(max_workers=6) as ex:
+        results = list(ex.map(lambda j: one(*j), jobs))
+    report = []
+    for (m, l), r in zip(jobs, results):
+        report.append({'module': m, 'lemma': l, 'result': r})
+        if l == 'FalseLemma':
+            if r not in ('refuted', 'timeout'):
+                raise RuntimeError(f'Apalache did not refute the deliberately false lemma on {m}: {r}')
+        elif r == 'refuted':
+            ctx.violation(f'Apalache refutes the step lemma {l} on {m} (specification-level: GVSym)', {'kind': 'apalache', 'module': m, 'lemma': l})
+        elif r.startswith('tool-error') or r.startswith('unknown'):
+            raise RuntimeError(f'Apalache failed on {m} {l}: {r}')
+    ctx.cov.setdefault('apalache', []).extend(report)
+    ctx.log('Apalache: ' + ', '.join(f"{x['lemma']}@{x['module'][9:]}={x['result']}" for x in report))
+    if link:
+        for (h, w) in [(1, 2), (2, 1)]:
+            cfg = write_cfg(os.path.join(ctx.work, f'MC_SymLink_{h}x{w}.cfg'), constants={'H': h, 'W': w}, invariants=['Link', 'SymInv'], constraints=['Depth1'])
+            res = run_tlc('MC_SymLink', cfg=cfg, workers=8, timeout=1200, check=False, heap='6g')
+            if res.violated:
+                ctx.violation(f'GVSym and the main specification disagree (MC_SymLink {h}x{w}: {res.violated})', {'kind': 'model', 'tail': res.raw[-2000:]})
+            elif res.rc != 0:
+                raise RuntimeError(res.raw[-2000:])
+            ctx.add_tlc(res, f'MC_SymLink {h}x{w}: GVSym!Next commutes with Step(key-door composition) under flattening')
+    return report
